@@ -194,6 +194,11 @@ impl ObjectReceiver {
 
         if self.transfer_length.unwrap() == 0 {
             debug_assert!(self.block_writer.is_none());
+            if self.object_writer.is_none() {
+                // Not yet announced by an FDT instance: there is no writer to deliver the empty
+                // object to, so it must not be recorded as completed
+                return Ok(());
+            }
             self.complete(now);
             return Ok(());
         }
